@@ -44,7 +44,7 @@ cfg("MC_RBC_b2_pinned", prog="P_one3", budget=2, alpha="AlphaForge", f15="FALSE"
 LIVE = dict(spec="FairSpec", props="EventuallyReturned EventuallyDelivered", tail="")
 cfg("MC_RBC_df2", n=2, t=0, honest="H2", prog="P_df2", dfrom="D1", who="W0", **LIVE)
 cfg("MC_RBC_df2_pinned", n=2, t=0, honest="H2", prog="P_df2", dfrom="D1", who="W0", f4="FALSE", **LIVE)
-cfg("MC_RBC_live1", n=4, t=1, honest="H3", prog="P_one3", **LIVE)
+cfg("MC_RBC_live1", n=4, t=1, honest="H3", prog="P_one3", **dict(LIVE, props="EventuallyDelivered"))   # (no DeliverFrom consumer: EventuallyReturned would be a tautology)
 # --- generators (simulation): behaviours are printed and replayed on the real objects
 GEN = dict(gen=60, inv="GenPrint", tail="CONSTRAINT GenStop", props="")
 cfg("GEN_RBC_b", prog="P_two3", budget=6, alpha="AlphaEquiv", **GEN)
